@@ -81,19 +81,18 @@ Regions(fam) ==
     [] fam = "r2big" -> { [add |-> <<p[1], p[2]>>, sub |-> <<>>] :
                           p \in { q \in RectsOn(-2, 2) \X RectsOn(-2, 2) : RectLess(q[1], q[2]) } }
     \* a 6 x 6 block minus a hole plus an island inside the hole (nested outlines; island touching the hole's rim)
-    [] fam = "nest" -> { [add |-> << <<-3,-3,3,3>> >>, sub |-> <<h>>, isl |-> <<i>>] :
-                          h \in { r \in RectsOn(-2, 2) : r[3] - r[1] >= 2 /\ r[4] - r[2] >= 2 },
-                          i \in { r \in RectsOn(-2, 2) : r[3] - r[1] <= 2 /\ r[4] - r[2] <= 2 } } \cap
-                       { g \in [add : { << <<-3,-3,3,3>> >> }, sub : { <<r>> : r \in RectsOn(-2, 2) }, isl : { <<r>> : r \in RectsOn(-2, 2) }] :
-                           /\ RectPix(g.isl[1]) \subseteq RectPix(g.sub[1]) /\ RectPix(g.isl[1]) # RectPix(g.sub[1]) }
+    [] fam = "nest" -> { [add |-> << <<-3,-3,3,3>> >>, sub |-> <<p[1]>>, isl |-> <<p[2]>>] :
+                          p \in { q \in RectsOn(-2, 2) \X RectsOn(-2, 2) :
+                                   /\ q[1][3] - q[1][1] >= 2 /\ q[1][4] - q[1][2] >= 2
+                                   /\ q[2][3] - q[2][1] <= 2 /\ q[2][4] - q[2][2] <= 2
+                                   /\ RectPix(q[2]) \subseteq RectPix(q[1]) /\ q[1] # q[2] } }
     \* two levels of nesting (a hole inside an island inside a hole) and two holed blocks side by side / touching
     [] fam = "nest2" ->
-         ({ [add |-> << <<-4,-4,3,3>> >>, sub |-> << <<-3,-3,2,2>> >>, isl |-> <<i>>, sub2 |-> <<h>>] :
-             i \in { r \in RectsOn(-3, 2) : r[3] - r[1] >= 3 /\ r[4] - r[2] >= 3 },
-             h \in { r \in RectsOn(-2, 1) : r[3] - r[1] = 1 /\ r[4] - r[2] <= 2 } } \cap
-         { g \in [add : { << <<-4,-4,3,3>> >> }, sub : { << <<-3,-3,2,2>> >> }, isl : { <<r>> : r \in RectsOn(-3, 2) },
-                   sub2 : { <<r>> : r \in RectsOn(-2, 1) }] :
-             LET i == g.isl[1]  h == g.sub2[1] IN i[1] < h[1] /\ h[3] < i[3] /\ i[2] < h[2] /\ h[4] < i[4] })
+         { [add |-> << <<-4,-4,3,3>> >>, sub |-> << <<-3,-3,2,2>> >>, isl |-> <<p[1]>>, sub2 |-> <<p[2]>>] :
+             p \in { q \in RectsOn(-3, 2) \X RectsOn(-2, 1) :
+                      /\ q[1][3] - q[1][1] >= 3 /\ q[1][4] - q[1][2] >= 3
+                      /\ q[2][3] - q[2][1] = 1 /\ q[2][4] - q[2][2] <= 2
+                      /\ q[1][1] < q[2][1] /\ q[2][3] < q[1][3] /\ q[1][2] < q[2][2] /\ q[2][4] < q[1][4] } }
          \cup
          { [add |-> << <<-4,-4,-1,-1>>, <<x, y, x + 3, y + 3>> >>, sub |-> << <<-3,-3,-2,-2>>, <<x + 1, y + 1, x + 2, y + 2>> >>] :
              x \in {-1, 0}, y \in {-4, -1, 0} }
